@@ -39,7 +39,7 @@ Print Assumptions C07_error_or_unevaluable_fails.
    (model/C07_Equality.v), tied to the implementation by the correspondence run on every ordered pair of the operand universe;
    proved for values of any size and nesting built from scalars, lists, tuples, sets and frozensets. *)
 From Coq Require Import QArith Qabs.
-From Pedal Require Import model.C07_Equality proof.C07_Equality_Lemmas.
+From Pedal Require Import model.C07_Equality proof.C07_Equality_Lemmas proof.C07_Equality_Dicts.
 
 Theorem C07_equality_is_order_independent :
   forall exact delta a e, dfree a = true -> dfree e = true -> equality_test exact delta a e = equality_test exact delta e a.
@@ -72,3 +72,14 @@ Theorem C07_equality_reflexive :
   forall exact delta a, 0 < delta -> dfree a = true -> nan_free a = true -> equality_test exact delta a a = true.
 Proof. exact equality_reflexive. Qed.
 Print Assumptions C07_equality_reflexive.
+
+(* the same two statements for ANY values, dicts included (proof/C07_Equality_Dicts.v); wfv: no NaN, dict keys pairwise different *)
+Theorem C07_equality_monotone_in_the_tolerance_any_value :
+  forall exact d d' a e, d <= d' -> equality_test exact d a e = true -> equality_test exact d' a e = true.
+Proof. exact equality_monotone_in_the_tolerance_any_value. Qed.
+Print Assumptions C07_equality_monotone_in_the_tolerance_any_value.
+
+Theorem C07_equality_reflexive_any_value :
+  forall exact delta a, 0 < delta -> wfv a = true -> equality_test exact delta a a = true.
+Proof. exact equality_reflexive_any_value. Qed.
+Print Assumptions C07_equality_reflexive_any_value.
